@@ -7,7 +7,7 @@ from typing import Any, Dict, List, Optional
 from aas_core_codegen.parse import retree
 from aas_core_codegen.parse.retree import _parse as retree_parse
 
-from vf.common import Violation, assume, fail, symbolic, realize, untraced, ScanMapping
+from vf.common import Violation, assume, fail, symbolic, realize, untraced, witness, ScanMapping
 
 # stub: the renderer looks characters up in class-level dicts; with a symbolic character a real dict realizes the key
 for _name in ("_ESCAPING_IN_CHARACTER_LITERALS", "_ESCAPING_IN_RANGE"):
@@ -143,7 +143,7 @@ def check(s: str, rx_len: int) -> str:
         fail("roundtrip:rendering-does-not-parse", "pattern %r rendered as %r: %s", s, r, error2.message)
     if not same_tree(regex, regex2):
         fail("roundtrip:reparsed-tree-differs", "pattern %r rendered as %r", s, r)
-    s_c, r_c = realize(s), realize(r)
+    s_c, r_c = witness(s, r)  # one member of the path class goes to the language comparison
     untraced(_faithful, s_c, r_c, rx_len)
     return "accepted"
 
@@ -214,7 +214,47 @@ def _producible(position: str) -> List[int]:
     return out
 
 
-_NOT_PRODUCIBLE = {pos: [c for c in range(128) if c not in _producible(pos)] for pos in ("literal", "set")}
+class _NotProducible:
+    """Computed once per check run (512 calls of the real parser): ``prepare`` writes it beside the shard list, the workers read it."""
+
+    def __init__(self) -> None:
+        self._table: Optional[Dict[str, List[int]]] = None
+
+    @staticmethod
+    def _path() -> Optional[str]:
+        import os
+        shards_file = os.environ.get("VF_SHARDS_FILE")
+        return os.path.join(os.path.dirname(shards_file), "c16_not_producible.json") if shards_file else None
+
+    @staticmethod
+    def compute() -> Dict[str, List[int]]:
+        out = {}
+        for pos in ("literal", "set"):
+            producible = set(_producible(pos))
+            out[pos] = [c for c in range(128) if c not in producible]
+        return out
+
+    def __getitem__(self, position: str) -> List[int]:
+        if self._table is None:
+            import json
+            import os
+            path = self._path()
+            if path and os.path.exists(path):
+                with open(path) as f:
+                    self._table = json.load(f)
+            else:
+                self._table = self.compute()
+        return self._table[position]
+
+
+_NOT_PRODUCIBLE = _NotProducible()
+
+
+def prepare(tier: str, workdir: str) -> None:
+    import json
+    import os
+    with open(os.path.join(workdir, "c16_not_producible.json"), "w") as f:
+        json.dump(_NotProducible.compute(), f)
 
 
 def _assume_producible(cp: Any, encoded: Any, position: str) -> None:
@@ -344,12 +384,7 @@ def shards(tier: str) -> List[Dict[str, Any]]:
     else:
         core_len, budget, deep_len, deep_budget, rx_len = 3, 3000, 4, 1500, 6
     out = []
-    if core_len <= 2:
-        for f in ["empty"] + classes:
-            out.append({"name": f"len<={core_len},first={f}",
-                        "params": {"max_len": core_len, "first": f, "rx_len": rx_len},
-                        "budget_s": budget, "per_path_timeout": 40})
-    else:
+    if True:
         out.append({"name": f"len<={core_len},first=empty", "params": {"max_len": core_len, "first": "empty", "rx_len": rx_len},
                     "budget_s": budget, "per_path_timeout": 40})
         for f in classes:
@@ -365,7 +400,8 @@ def shards(tier: str) -> List[Dict[str, Any]]:
             out.append({"name": f"quantifier-body:len={body_len},{'closed' if closed else 'open'}",
                         "params": {"kind": "quantifier-body", "body_len": body_len, "closed": closed, "max_len": 0,
                                    "rx_len": rx_len + 2},
-                        "budget_s": budget, "per_path_timeout": 40, **({"exploratory": True} if body_len >= 2 else {})})
+                        "budget_s": budget if body_len < 2 or tier != "quick" else 60, "per_path_timeout": 40,
+                        **({"exploratory": True} if body_len >= 2 else {})})
     # tree level: symbolic characters in fixed tree shapes (render -> parse must give the same tree)
     for skeleton in TREE_SKELETONS:
         n_chars = {"char": 1, "char-char": 2, "set1": 1, "set-range": 2, "cset-range": 2}.get(skeleton, 3)
@@ -376,14 +412,15 @@ def shards(tier: str) -> List[Dict[str, Any]]:
                 out.append({"name": f"tree:{skeleton},{quant},encoded={''.join('1' if e else '0' for e in enc)}",
                             "params": {"kind": "tree", "skeleton": skeleton, "quant": quant,
                                        "enc": list(enc) + [False] * (3 - n_chars), "max_len": 0, "rx_len": 0},
-                            "budget_s": (150 if n_chars < 3 else 60) if tier == "quick" else 2400, "per_path_timeout": 40,
+                            "budget_s": (150 if n_chars < 3 else 40) if tier == "quick" else 2400, "per_path_timeout": 40,
                             **({"exploratory": True} if (tier == "quick" and n_chars >= 3) else {})})
-    # deeper, budgeted exploration (not part of the exhaustive claim)
-    for f in classes:
+    # deeper, budgeted exploration (not part of the exhaustive claim; thorough tier only)
+    for f in (classes if tier != "quick" else []):
         for g in classes:
             out.append({"name": f"len={deep_len},first={f},second={g} (exploratory)", "exploratory": True,
                         "params": {"max_len": deep_len, "min_len": deep_len, "first": f, "second": g, "rx_len": rx_len},
                         "budget_s": deep_budget, "per_path_timeout": 40})
+    out.sort(key=lambda shard: -shard["budget_s"] if not shard.get("exploratory") else 0)  # the long ones start first
     return out
 
 
@@ -419,7 +456,7 @@ def describe(tier: str) -> Dict[str, Any]:
                   "group with alternatives) x quantifiers, every character a symbolic code point over all scalar values with a "
                   "symbolic/explicit 'explicitly encoded' flag: render -> parse must reproduce the tree. Text level: "
                   f"pattern: symbolic str over all of Unicode, exhaustively claimed for len <= {s[0]['params']['max_len']} (one shard "
-                  f"per class of the first (and second) character) plus budgeted exploratory shards one character longer; language comparison (rx, z3 QF_LIA) on strings of length <= {s[0]['params']['rx_len']} "
+                  f"per class of the first (and second) character) plus (thorough tier) budgeted exploratory shards one character longer; language comparison (rx, z3 QF_LIA) on strings of length <= {s[0]['params']['rx_len']} "
                   "over all code points",
         "outside": "longer patterns; FormattedValue pieces (f-string patterns) are exercised in C08; faithfulness is "
                    "decided for ONE realized witness per path class of the parser (and for every corpus pattern), not for "
